@@ -31,7 +31,8 @@ CLAIM = dict(
           "are written verbatim, each followed by a line break, as a prefix of the output (header_text); under the reference "
           "rules the output starts with exactly these comment tokens each followed by a newline token, contains no other "
           "comment token, has as many code tokens as the input, and the title/byline rule of stats reads the two comments "
-          "(C19_titles); C19_holds - holds_C19 is true of the model's output; C19_total. Relative to lexer_agrees (= C07). "
+          "(C19_titles); C19_holds - holds_C19 is true of the model's output; C19_total; C19_end_to_end - composed with the "
+          "lexer worker's lex_agrees_code (C07), from the source bytes, no hypothesis about the lexer left. "
           "Tie: correspondence of lexer model + writer model with the real writer on the header-shape enumerator (0-3 leading "
           "comments x comment forms x blank lines/spaces x LF/CRLF x code on the same/next line), generated programs and both "
           "CLI paths; the extracted holds_C19 on the implementation's real output plus Lua.get_title()/get_byline()."),
